@@ -10,8 +10,17 @@ A mutant is {id, property, file, old, new, note}. `old` must occur exactly once 
 Results are appended to /verif/mutants_results.jsonl."""
 import argparse, json, os, subprocess, sys, time
 
+import shutil, tempfile
 VERIF = os.path.dirname(os.path.dirname(os.path.abspath(__file__)))
-REPO = "/repo"
+SRC = "/repo"
+REPO = None  # private copy of /repo's working tree: mutants never touch /repo itself
+
+
+def private_copy():
+    global REPO
+    REPO = tempfile.mkdtemp(prefix="verif-mutrepo-")
+    subprocess.run(["rsync", "-a", "--exclude", ".git", SRC + "/", REPO + "/"], check=True)
+    os.environ["VERIF_REPO"] = REPO
 
 
 def load():
@@ -36,6 +45,7 @@ def main():
         for m in ms:
             print(m["id"], m["property"], m["file"], "-", m.get("note", ""))
         return 0
+    private_copy()
     sel = [m for m in ms if m["id"] in a.ids or (a.property and a.property in m["property"].split(","))]
     for m in sel:
         path = os.path.join(REPO, m["file"])
@@ -62,7 +72,7 @@ def main():
         print(json.dumps(res))
         with open(os.path.join(VERIF, "mutants_results.jsonl"), "a") as f:
             f.write(json.dumps(res) + "\n")
-    subprocess.run(["git", "-C", REPO, "status", "--short"])
+    shutil.rmtree(REPO, ignore_errors=True)
     return 0
 
 
